@@ -548,6 +548,10 @@ func pruneBy(as Assume, extra func(f *paths.Frame, iff *ssa.If, idx int) bool) f
 		if v, known := foldLookupUnder(as, iff.Cond); known {
 			return v != (idx == 0)
 		}
+		// the lengths of two lists a message keeps in step (`len(msg.Topics()) != len(msg.Qos())`): equal
+		if eq, known := parallelLenTest(iff.Cond); known {
+			return eq != (idx == 0)
+		}
 		atom, truth := edgeAtomOnPath(f, iff, idx)
 		if atom == "" {
 			// a comparison of two booleans whose atoms are both assumed: (a > 0) != (b > 0)
@@ -558,6 +562,11 @@ func pruneBy(as Assume, extra func(f *paths.Frame, iff *ssa.If, idx int) bool) f
 		}
 		if want, ok := as[atom]; ok {
 			return want != truth
+		}
+		// the contracts are stated for requests that exist: a nil test of a message parameter of the analysed function
+		// (an argument check in front of the body) is taken as "not nil" unless the rule says otherwise
+		if strings.HasPrefix(atom, "nonnil:") && !truth && f != nil && f.Parent == nil && nilTestOfMessageParam(iff, f.Fn) {
+			return true
 		}
 		// an assumed equality fixes the value: eq / gt / lt tests of the same operand against other
 		// constants are decided by it (a switch rewritten as an if-chain tests the cases in another order)
@@ -574,6 +583,149 @@ func pruneBy(as Assume, extra func(f *paths.Frame, iff *ssa.If, idx int) bool) f
 	}
 }
 
+// parallelLenTest: cond compares len(a) with len(b) (== or !=) where a and b are what two getters of one message
+// object return - two slice fields of that message which every function of package message updates together (as
+// many stores of the one as of the other: AddTopic / RemoveTopic / Decode append and cut them in pairs). The lengths
+// are then equal: returns the value of the condition.
+func parallelLenTest(cond ssa.Value) (bool, bool) {
+	b, ok := cond.(*ssa.BinOp)
+	if !ok || (b.Op != token.EQL && b.Op != token.NEQ) {
+		return false, false
+	}
+	field := func(v ssa.Value) (recv ssa.Value, typ *types.Named, name string) {
+		call, ok := v.(*ssa.Call)
+		if !ok {
+			return nil, nil, ""
+		}
+		bi, ok := call.Common().Value.(*ssa.Builtin)
+		if !ok || bi.Name() != "len" || len(call.Common().Args) != 1 {
+			return nil, nil, ""
+		}
+		gc, ok := ir.SeeThrough(call.Common().Args[0]).(*ssa.Call)
+		if !ok {
+			return nil, nil, ""
+		}
+		g := gc.Common().StaticCallee()
+		if g == nil || g.Pkg == nil || g.Pkg.Pkg.Path() != pkgMessage || g.Signature.Recv() == nil || len(g.Blocks) != 1 || len(gc.Common().Args) != 1 {
+			return nil, nil, ""
+		}
+		ret, ok := g.Blocks[0].Instrs[len(g.Blocks[0].Instrs)-1].(*ssa.Return)
+		if !ok || len(ret.Results) != 1 {
+			return nil, nil, ""
+		}
+		u, ok := ret.Results[0].(*ssa.UnOp)
+		if !ok || u.Op != token.MUL {
+			return nil, nil, ""
+		}
+		fa, ok := u.X.(*ssa.FieldAddr)
+		if !ok || fa.X != ssa.Value(g.Params[0]) {
+			return nil, nil, ""
+		}
+		pt, ok := fa.X.Type().Underlying().(*types.Pointer)
+		if !ok {
+			return nil, nil, ""
+		}
+		nt, ok := pt.Elem().(*types.Named)
+		st, ok2 := pt.Elem().Underlying().(*types.Struct)
+		if !ok || !ok2 {
+			return nil, nil, ""
+		}
+		return ir.SeeThrough(gc.Common().Args[0]), nt, st.Field(fa.Field).Name()
+	}
+	r1, t1, f1 := field(b.X)
+	r2, t2, f2 := field(b.Y)
+	if r1 == nil || r2 == nil || r1 != r2 || t1 != t2 || f1 == f2 {
+		return false, false
+	}
+	if !fieldsInStep(t1, f1, f2) {
+		return false, false
+	}
+	return b.Op == token.EQL, true
+}
+
+type inStepKey struct {
+	t      *types.Named
+	f1, f2 string
+}
+
+var inStepCache = map[inStepKey]bool{}
+var inStepMu sync.Mutex
+
+// fieldsInStep: every function of the program stores the two fields of typ equally often (never one without the other).
+func fieldsInStep(typ *types.Named, f1, f2 string) bool {
+	key := inStepKey{typ, f1, f2}
+	inStepMu.Lock()
+	v, ok := inStepCache[key]
+	inStepMu.Unlock()
+	if ok {
+		return v
+	}
+	res, any := true, false
+	for _, fn := range globalStoreFuncs {
+		n1, n2 := 0, 0
+		for _, b := range fn.Blocks {
+			for _, in := range b.Instrs {
+				st, ok := in.(*ssa.Store)
+				if !ok {
+					continue
+				}
+				fa, ok := st.Addr.(*ssa.FieldAddr)
+				if !ok {
+					continue
+				}
+				pt, ok := fa.X.Type().Underlying().(*types.Pointer)
+				if !ok || pt.Elem() != types.Type(typ) {
+					continue
+				}
+				switch typ.Underlying().(*types.Struct).Field(fa.Field).Name() {
+				case f1:
+					n1++
+				case f2:
+					n2++
+				}
+			}
+		}
+		if n1 != n2 {
+			res = false
+		}
+		if n1 > 0 {
+			any = true
+		}
+	}
+	res = res && any
+	inStepMu.Lock()
+	inStepCache[key] = res
+	inStepMu.Unlock()
+	return res
+}
+
+// nilTestOfMessageParam: the condition compares a parameter of fn whose type belongs to package message (a pointer to
+// one of its message types, or the Message interface) with nil.
+func nilTestOfMessageParam(iff *ssa.If, fn *ssa.Function) bool {
+	b, ok := iff.Cond.(*ssa.BinOp)
+	if !ok || (b.Op != token.EQL && b.Op != token.NEQ) {
+		return false
+	}
+	for _, pr := range [][2]ssa.Value{{b.X, b.Y}, {b.Y, b.X}} {
+		k, isK := pr[1].(*ssa.Const)
+		if !isK || !k.IsNil() {
+			continue
+		}
+		par, isP := ir.SeeThrough(pr[0]).(*ssa.Parameter)
+		if !isP || par.Parent() != fn {
+			continue
+		}
+		t := par.Type()
+		if pt, ok := t.Underlying().(*types.Pointer); ok {
+			t = pt.Elem()
+		}
+		if n, ok := t.(*types.Named); ok && n.Obj().Pkg() != nil && n.Obj().Pkg().Path() == pkgMessage {
+			return true
+		}
+	}
+	return false
+}
+
 // ---------------------------------------------------------------------------
 // queries with reporting
 
@@ -582,7 +734,90 @@ func mustPass(g *paths.Graph, from []paths.Node, m func(paths.Node) bool, as Ass
 	old := g.PruneEdge
 	g.PruneEdge = pruneBy(as, old)
 	defer func() { g.PruneEdge = old }()
+	// "paths on which nothing failed" ("err:*" assumed false): a return of the analysed function that hands back a
+	// provably non-nil error (errors.New / fmt.Errorf on the spot, or a package-level error created once) is not such
+	// a path, whatever test led to it (an argument check added in front, say)
+	if v, ok := as["err:*"]; ok && !v {
+		mm := m
+		m = func(n paths.Node) bool { return mm(n) || failingReturn(n) }
+	}
 	return g.FindPath(from, m, isExit)
+}
+
+// globalStoreFuncs: every function of the analysed program (library functions, their closures and the package
+// initialisers), set when a check context is created; provablyNonNilError looks in it for stores to a package-level
+// error variable.
+var globalStoreFuncs []*ssa.Function
+
+// failingReturn: n is a return of the root function whose last result is an error that is provably not nil.
+func failingReturn(n paths.Node) bool {
+	if n.F == nil || n.F.Parent != nil {
+		return false
+	}
+	ret, ok := n.Instr.(*ssa.Return)
+	if !ok || len(ret.Results) == 0 {
+		return false
+	}
+	last := len(ret.Results) - 1
+	if !isErrorType(ret.Results[last].Type()) {
+		return false
+	}
+	return provablyNonNilError(ir.ReturnOperand(ret, last), 0)
+}
+
+func isErrorType(t types.Type) bool {
+	n, ok := t.(*types.Named)
+	return ok && n.Obj().Pkg() == nil && n.Obj().Name() == "error"
+}
+
+// provablyNonNilError: v is the result of errors.New / fmt.Errorf, a non-nil value boxed into the interface, or a
+// load of a package-level error variable whose only stores are such values (the `var errX = errors.New(...)` idiom).
+func provablyNonNilError(v ssa.Value, depth int) bool {
+	if depth > 2 {
+		return false
+	}
+	switch x := v.(type) {
+	case *ssa.Call:
+		if f := x.Common().StaticCallee(); f != nil && f.Pkg != nil {
+			pp, nm := f.Pkg.Pkg.Path(), f.Name()
+			return pp == "errors" && nm == "New" || pp == "fmt" && nm == "Errorf"
+		}
+	case *ssa.MakeInterface:
+		switch y := x.X.(type) {
+		case *ssa.Alloc, *ssa.MakeClosure:
+			return true
+		case *ssa.Const:
+			return !y.IsNil()
+		case *ssa.Call:
+			return provablyNonNilError(y, depth+1)
+		}
+		// a value of a non-pointer named type (an error code type) is never a nil interface
+		if _, isPtr := x.X.Type().Underlying().(*types.Pointer); !isPtr {
+			if _, isIface := x.X.Type().Underlying().(*types.Interface); !isIface {
+				return true
+			}
+		}
+	case *ssa.UnOp:
+		g, ok := x.X.(*ssa.Global)
+		if !ok || x.Op != token.MUL {
+			return false
+		}
+		n := 0
+		for _, f := range globalStoreFuncs {
+			for _, b := range f.Blocks {
+				for _, in := range b.Instrs {
+					if st, ok := in.(*ssa.Store); ok && st.Addr == ssa.Value(g) {
+						if f.Name() != "init" || f.Pkg != g.Pkg || !provablyNonNilError(st.Val, depth+1) {
+							return false
+						}
+						n++
+					}
+				}
+			}
+		}
+		return n == 1
+	}
+	return false
 }
 
 // reach: a path from `from` to a node matching target avoiding `avoid` (under assumptions).
